@@ -531,6 +531,11 @@ func callSSA(i *interpreter, caller *frame, callpos token.Pos, fn *ssa.Function,
 		if ext := externals[name]; ext != nil {
 			return ext(fr, args)
 		}
+		if nat := natives[name]; nat != nil {
+			if r, ok := nat(args); ok {
+				return r
+			}
+		}
 		if fn.Name() == "init" && fn.Pkg != nil && fn.Signature.Recv() == nil && caller != nil && caller.fn != nil && caller.fn.Name() == "init" && caller.fn.Pkg != fn.Pkg {
 			// import-edge init call: packages are initialised lazily on first touch
 			return nil
